@@ -18,6 +18,8 @@ process_emphasis for bounded families of delimiter stacks):
 
 import ast
 import itertools
+import json
+import os
 
 from ..affine import Aff, LenStr, affine_of, single_defs, canon_text
 from ..domains import Cond
@@ -856,6 +858,37 @@ def rule_stack_sim(ctx, rep, only_raises=False):
     known = {'rule3-current': 0, 'coarse-bottom': 0}
     new, n_new = [], 0
     per_family = {}
+    # Opt-in result cache (VERIF_CACHE_DIR; never set by the registered commands): the simulation reads
+    # core_tokens.py only, so its outcome is a function of that file's text, this rule's code and the tier. Used by
+    # the corpus tools, which run the same simulation hundreds of times on trees that differ elsewhere.
+    cache_file = None
+    cdir = os.environ.get('VERIF_CACHE_DIR')
+    if cdir:
+        import hashlib
+        h = hashlib.sha256()
+        h.update(unit.source.encode('utf-8'))
+        for f_ in (__file__, os.path.join(os.path.dirname(os.path.dirname(__file__)), 'interp.py'),
+                   os.path.join(os.path.dirname(os.path.dirname(__file__)), 'affine.py')):
+            with open(f_, 'rb') as fh:
+                h.update(fh.read())
+        h.update(repr((ctx.thorough, only_raises, [n_ for n_, _ in families])).encode())
+        cache_file = os.path.join(cdir, 'stack_sim_%s.json' % h.hexdigest()[:24])
+        others = {q for q in ctx.callgraph().reachable([pe]) if q in model.functions
+                  and model.functions[q].modname != pe.modname}
+        if others:
+            cache_file = None       # the simulated code reaches into another module: not a function of this file alone
+    cached = None
+    if cache_file and os.path.exists(cache_file):
+        try:
+            with open(cache_file) as fh:
+                cached = json.load(fh)
+        except Exception:
+            cached = None
+    if cached is not None:
+        families = []
+        total, known, per_family = cached['total'], cached['known'], cached['per_family']
+        new = [tuple(x) for x in cached['new']]
+        rep.note('stack simulation result taken from the opt-in cache (%s)' % os.path.basename(cache_file))
     for name, gen in families:
         combos = list(gen)
         chunks = [combos[i:i + 400] for i in range(0, len(combos), 400)]
@@ -868,6 +901,18 @@ def rule_stack_sim(ctx, rep, only_raises=False):
             n_new += cnt
             fam_new += cnt
         per_family[name] = {'stacks': len(combos), 'unexplained': fam_new}
+    if cached is not None:
+        n_new = cached['n_new']
+    elif cache_file:
+        try:
+            os.makedirs(cdir, exist_ok=True)
+            tmp_ = cache_file + '.%d.tmp' % os.getpid()
+            with open(tmp_, 'w') as fh:
+                json.dump({'total': total, 'known': known, 'per_family': per_family, 'n_new': n_new,
+                           'new': [[a, b if isinstance(b, str) else [list(t) for t in b], [list(t) for t in c], d] for a, b, c, d in new]}, fh)
+            os.replace(tmp_, cache_file)
+        except Exception:
+            pass
     rep.extra['stack_sim'] = {'stacks': total, 'families': per_family, 'differences': n_new, 'of which recognised deviations': known}
     rep.obligation(rule, not new, {'stacks': total, 'differences': n_new, 'recognised deviations': known,
                                    'examples': [x[0] for x in new[:5]]})
